@@ -65,3 +65,11 @@ REG["C20"] = {
                    "whose header names that index range."),
     "level_note": _NOTE,
 }
+
+REG["C06"] = {
+    "technique": "TLC model checking of Combine.tla (validation, mode choice, three worker kinds, gather through map_bfile_offsets, header rewrite; refinement of CombineSpec on layout-free Content) + replay of every behaviour into the real combine() with token-exact comparison; refusal checked with an audit hook for 'nothing written'",
+    "level_text": ("Every pair of independently chosen layouts (<=3 boxes over <=3 files in every on-disk order, 1-2 levels) x field selections (None, lists, with unknown / duplicate names, "
+                   "list and string argument forms) x pool completion orders, and mismatched pairs (fewer boxes, shifted box, fewer levels) are model-checked and replayed; "
+                   "the real validator must accept each output; refused runs must leave no file-system mutation."),
+    "level_note": _NOTE,
+}
